@@ -15,7 +15,7 @@ def main(c):
     exe = vlib.build_driver('c19', 'asan', extra_cflags=HARNESS_REAL, extra_ldflags=WRAP)
     base = vlib.scratch_dir('c19')
     try:
-        scenarios = ['schema', 'schemaon', 'misc'] + ['write%d' % i for i in range(5)] + ['goon%d' % i for i in ((0, 1, 2, 3, 4) if thorough else (0, 1))] + ['widewrite'] + ['read%d' % m for m in range(3)] + ['batch%d' % m for m in range(3)] + ['whole%d' % m for m in range(3)] + ['wideread0', 'wideread1'] + ['wideread%d' % (3 * v) for v in range(1, 10)]
+        scenarios = ['schema', 'schemaon', 'misc'] + ['write%d' % i for i in range(5)] + ['goon%d' % i for i in ((0, 1, 2, 3, 4) if thorough else (0, 1))] + ['widewrite'] + ['read%d' % m for m in range(3)] + ['batch%d' % m for m in range(3)] + ['whole%d' % m for m in range(3)] + ['wideread0', 'wideread1'] + ['wideread%d' % (3 * v) for v in range(1, 4)] + ['sa_wideread0', 'sa_wideread1', 'sa_read0', 'sa_read2', 'sa_write0', 'sa_schema']
         if thorough:
             scenarios += ['read%d' % m for m in range(3, 15)] + ['batch%d' % m for m in range(3, 15)] + ['whole%d' % m for m in range(3, 15)] + ['wideread2']
         # dictionary files from the reference writer
